@@ -1,7 +1,7 @@
 (* C18 — the taxonomy names, measures and serialises the species tree faithfully. *)
 From Coq Require Import List Arith Bool String Ascii.
 From PyHam Require Import Tax Newick.
-From PyHam.proofs Require Import TaxFacts NewickFacts.
+From PyHam.proofs Require Import TaxFacts NewickFacts PathFacts.
 Import ListNotations.
 
 (* every node is annotated, and with its distance from the root *)
@@ -27,6 +27,19 @@ Proof.
   - intros q. exact (between_in s anc q).
 Qed.
 Print Assumptions c18_path_up.
+
+(* the path over two stretches is the lower path, the middle node, the upper path (what C07's chaining relies on) *)
+Theorem c18_path_up_compose : forall s1 s2 anc, s1 <> [] -> s2 <> [] ->
+  path_up (s1 ++ s2 ++ anc) anc =
+  path_up (s1 ++ s2 ++ anc) (s2 ++ anc) ++ (s2 ++ anc) :: path_up (s2 ++ anc) anc.
+Proof. exact path_up_compose. Qed.
+Print Assumptions c18_path_up_compose.
+
+(* every node the query returns lies strictly between the two ends in depth *)
+Theorem c18_path_up_depths : forall s anc q, s <> [] -> In q (path_up (s ++ anc) anc) ->
+  List.length anc < List.length q < List.length (s ++ anc).
+Proof. exact path_up_depths. Qed.
+Print Assumptions c18_path_up_depths.
 
 (* names: the tree's own when requested, otherwise the leaf names of the clade joined by '/' *)
 Theorem c18_names : forall ui t t' p s,
